@@ -82,6 +82,40 @@ fn exercise(f: &[u8]) {
     }
 }
 
+/// (.hash, .gnu.hash, .dynsym, .dynstr) with one bucket whose chain has `links` entries; all symbols are named "" but the last ("zz")
+fn long_chain_tables(class: elf::file::Class, links: usize, cyclic: bool) -> (Vec<u8>, Vec<u8>, Vec<u8>, Vec<u8>) {
+    let nsym = links + 1;
+    let symsize = if class == elf::file::Class::ELF32 { 16 } else { 24 };
+    let mut syms = vec![0u8; symsize * nsym];
+    syms[symsize * (nsym - 1)] = 1;
+    let strs = vec![0u8, b'z', b'z', 0];
+    let mut sysv = Vec::new();
+    for w in [1u32, nsym as u32, 1] {
+        sysv.extend_from_slice(&w.to_le_bytes());
+    }
+    for i in 0..nsym {
+        let next = if i == 0 { 0 } else if i + 1 < nsym { i + 1 } else if cyclic { 1 } else { 0 };
+        sysv.extend_from_slice(&(next as u32).to_le_bytes());
+    }
+    let mut gnu = Vec::new();
+    for w in [1u32, 1, 1, 0] {
+        gnu.extend_from_slice(&w.to_le_bytes());
+    }
+    if class == elf::file::Class::ELF32 {
+        gnu.extend_from_slice(&u32::MAX.to_le_bytes());
+    } else {
+        gnu.extend_from_slice(&u64::MAX.to_le_bytes());
+    }
+    gnu.extend_from_slice(&1u32.to_le_bytes());
+    // djb2("zz") = 5381*33*33 + 122*33 + 122 = 5864057 (the last symbol's chain word carries it with the stop bit)
+    let hzz: u32 = 5381u32 * 33 * 33 + 122 * 33 + 122;
+    for i in 0..links {
+        let w = if i + 1 < links { 2 } else if cyclic { hzz & !1 } else { hzz | 1 };
+        gnu.extend_from_slice(&w.to_le_bytes());
+    }
+    (sysv, gnu, syms, strs)
+}
+
 fn main() {
     let mut names: Vec<_> = std::fs::read_dir("/repo/sample-objects").map(|d| d.filter_map(|e| e.ok()).map(|e| e.path()).collect()).unwrap_or_default();
     names.sort();
@@ -126,6 +160,33 @@ fn main() {
             if c > 0 {
                 println!("FAIL C06 {} [{}] :: the slice parser allocated {} time(s)", p.display(), what, c);
                 failed = true;
+            }
+        }
+    }
+    // synthetic hash tables with chains far longer than any sample's (open and cyclic), ELF32 and ELF64, looked up directly
+    for class in [elf::file::Class::ELF32, elf::file::Class::ELF64] {
+        for links in [3usize, 40, 200] {
+            for cyclic in [false, true] {
+                let (sysv, gnu, syms, strs) = long_chain_tables(class, links, cyclic);
+                COUNT.with(|c| c.set(0));
+                ON.with(|o| o.set(true));
+                let symtab = elf::symbol::SymbolTable::new(AnyEndian::Little, class, &syms);
+                let strtab = elf::string_table::StringTable::new(&strs);
+                if let Ok(t) = elf::hash::SysVHashTable::new(AnyEndian::Little, class, &sysv) {
+                    let _ = t.find(b"zz", &symtab, &strtab);
+                    let _ = t.find(b"qq", &symtab, &strtab);
+                }
+                if let Ok(t) = elf::hash::GnuHashTable::new(AnyEndian::Little, class, &gnu) {
+                    let _ = t.find(b"zz", &symtab, &strtab);
+                    let _ = t.find(b"qq", &symtab, &strtab);
+                }
+                ON.with(|o| o.set(false));
+                let c = COUNT.with(|c| c.get());
+                n += 1;
+                if c > 0 {
+                    println!("FAIL C06 synthetic hash tables with a {links}-link chain (cyclic={cyclic}, {class:?}) :: the hash lookups allocated {c} time(s)");
+                    failed = true;
+                }
             }
         }
     }
